@@ -1,0 +1,223 @@
+//! Verification hooks. Only compiled with `--cfg tera_verif`; nothing in here is part of the
+//! public API of Tera and nothing in the regular build refers to it.
+#![allow(missing_docs)]
+
+use std::sync::atomic::{AtomicBool, Ordering};
+
+use crate::delimiters::Delimiters;
+use crate::errors::{Error, ErrorKind, TeraResult};
+use crate::parsing::ast::Node;
+use crate::parsing::lexer::{tokenize, verif_basic_tokenize as basic_tokenize};
+use crate::parsing::parser::Parser;
+use crate::parsing::{Chunk, Compiler, Instruction};
+use crate::utils::Span;
+use crate::vm::state::State;
+
+static OPTIMIZE: AtomicBool = AtomicBool::new(true);
+
+/// Process-wide switch: when `false`, `Chunk::optimize` is a no-op.
+pub fn set_optimize(on: bool) {
+    OPTIMIZE.store(on, Ordering::SeqCst);
+}
+
+pub(crate) fn optimize_enabled() -> bool {
+    OPTIMIZE.load(Ordering::SeqCst)
+}
+
+/// Checked after every successful `interpret` that started from a fresh `State`.
+pub(crate) fn assert_state_clean(state: &State<'_>, site: &str) {
+    assert!(
+        state.stack.verif_len() == 0,
+        "tera_verif: value stack not empty after {site}: {}",
+        state.stack.verif_len()
+    );
+    assert!(
+        state.for_loops.is_empty(),
+        "tera_verif: loop stack not empty after {site}: {}",
+        state.for_loops.len()
+    );
+    assert!(
+        state.capture_buffers.is_empty(),
+        "tera_verif: capture stack not empty after {site}: {}",
+        state.capture_buffers.len()
+    );
+}
+
+/// Token stream as `(Debug of token, span)`. `filtered == false` gives the raw lexer output
+/// (comments and raw blocks present), `true` what the parser sees.
+pub fn lex(
+    source: &str,
+    delimiters: Delimiters,
+    filtered: bool,
+) -> Result<Vec<(String, Span)>, Error> {
+    let mut out = Vec::new();
+    if filtered {
+        for t in tokenize(source, delimiters) {
+            let (tok, span) = t?;
+            out.push((format!("{tok:?}"), span));
+        }
+    } else {
+        for t in basic_tokenize(source, delimiters) {
+            let (tok, span) = t?;
+            out.push((format!("{tok:?}"), span));
+        }
+    }
+    Ok(out)
+}
+
+fn parse(name: &str, source: &str, delimiters: Delimiters) -> TeraResult<crate::parsing::parser::ParserOutput> {
+    match Parser::new(name, source, delimiters).parse() {
+        Ok(p) => Ok(p),
+        Err(mut e) => {
+            if let ErrorKind::SyntaxError(ref mut s) = e.kind {
+                s.set_source(name, source);
+            }
+            Err(e)
+        }
+    }
+}
+
+/// `Display` (fully parenthesised prefix form) and span of every top-level `{{ expr }}` node.
+pub fn parse_expr_display(
+    source: &str,
+    delimiters: Delimiters,
+) -> Result<Vec<(String, Span)>, Error> {
+    let out = parse("", source, delimiters)?;
+    let mut res = Vec::new();
+    for n in &out.nodes {
+        if let Node::Expression(e) = n {
+            res.push((format!("{e}"), e.span().clone()));
+        }
+    }
+    Ok(res)
+}
+
+/// `Debug` of the node list, the parent and the component definitions.
+pub fn parse_debug(source: &str, delimiters: Delimiters) -> Result<String, Error> {
+    let out = parse("", source, delimiters)?;
+    Ok(format!("{out:#?}"))
+}
+
+/// One instruction as `OPCODE\targ\targ…`. Strings are `{:?}`-escaped, constants are `Debug`
+/// of the value, bool vectors are strings of `0`/`1`.
+pub(crate) fn fmt_instr(i: &Instruction) -> String {
+    fn bits(v: &[bool]) -> String {
+        v.iter().map(|b| if *b { '1' } else { '0' }).collect()
+    }
+    fn path(v: &[String]) -> String {
+        v.iter()
+            .map(|s| format!("{s:?}"))
+            .collect::<Vec<_>>()
+            .join("\t")
+    }
+    match i {
+        Instruction::LoadConst(v) => format!("LoadConst\t{v:?}"),
+        Instruction::LoadName(s) => format!("LoadName\t{s:?}"),
+        Instruction::LoadAttr(s) => format!("LoadAttr\t{s:?}"),
+        Instruction::LoadAttrOpt(s) => format!("LoadAttrOpt\t{s:?}"),
+        Instruction::BinarySubscript => "BinarySubscript".into(),
+        Instruction::BinarySubscriptOpt => "BinarySubscriptOpt".into(),
+        Instruction::Slice => "Slice".into(),
+        Instruction::SliceOpt => "SliceOpt".into(),
+        Instruction::WriteText(s) => format!("WriteText\t{s:?}"),
+        Instruction::WriteTop => "WriteTop".into(),
+        Instruction::Set(s) => format!("Set\t{s:?}"),
+        Instruction::SetGlobal(s) => format!("SetGlobal\t{s:?}"),
+        Instruction::Include(s) => format!("Include\t{s:?}"),
+        Instruction::BuildMap(n) => format!("BuildMap\t{n}"),
+        Instruction::BuildList(n) => format!("BuildList\t{n}"),
+        Instruction::BuildMapWithSpreads(v) => format!("BuildMapWithSpreads\t{}", bits(v)),
+        Instruction::BuildListWithSpreads(v) => format!("BuildListWithSpreads\t{}", bits(v)),
+        Instruction::CallFunction(s) => format!("CallFunction\t{s:?}"),
+        Instruction::RenderInlineComponent(s) => format!("RenderInlineComponent\t{s:?}"),
+        Instruction::RenderBodyComponent(s) => format!("RenderBodyComponent\t{s:?}"),
+        Instruction::ApplyFilter(s) => format!("ApplyFilter\t{s:?}"),
+        Instruction::RunTest(s) => format!("RunTest\t{s:?}"),
+        Instruction::RenderBlock(s) => format!("RenderBlock\t{s:?}"),
+        Instruction::Jump(t) => format!("Jump\t{t}"),
+        Instruction::PopJumpIfFalse(t) => format!("PopJumpIfFalse\t{t}"),
+        Instruction::JumpIfFalseOrPop(t) => format!("JumpIfFalseOrPop\t{t}"),
+        Instruction::JumpIfTrueOrPop(t) => format!("JumpIfTrueOrPop\t{t}"),
+        Instruction::Capture => "Capture".into(),
+        Instruction::EndCapture => "EndCapture".into(),
+        Instruction::StartIterate(b) => format!("StartIterate\t{}", *b as u8),
+        Instruction::StartIterateComprehension(b) => {
+            format!("StartIterateComprehension\t{}", *b as u8)
+        }
+        Instruction::Iterate(t) => format!("Iterate\t{t}"),
+        Instruction::StoreLocal(s) => format!("StoreLocal\t{s:?}"),
+        Instruction::StoreDidNotIterate => "StoreDidNotIterate".into(),
+        Instruction::Break => "Break".into(),
+        Instruction::PopLoop => "PopLoop".into(),
+        Instruction::AppendToList => "AppendToList".into(),
+        Instruction::Mul => "Mul".into(),
+        Instruction::Div => "Div".into(),
+        Instruction::FloorDiv => "FloorDiv".into(),
+        Instruction::Mod => "Mod".into(),
+        Instruction::Plus => "Plus".into(),
+        Instruction::Minus => "Minus".into(),
+        Instruction::Power => "Power".into(),
+        Instruction::LessThan => "LessThan".into(),
+        Instruction::GreaterThan => "GreaterThan".into(),
+        Instruction::LessThanOrEqual => "LessThanOrEqual".into(),
+        Instruction::GreaterThanOrEqual => "GreaterThanOrEqual".into(),
+        Instruction::Equal => "Equal".into(),
+        Instruction::NotEqual => "NotEqual".into(),
+        Instruction::StrConcat => "StrConcat".into(),
+        Instruction::In => "In".into(),
+        Instruction::Not => "Not".into(),
+        Instruction::Negative => "Negative".into(),
+        Instruction::LoadPath(p) => format!("LoadPath\t{}", path(p)),
+        Instruction::WritePath(p) => format!("WritePath\t{}", path(p)),
+    }
+}
+
+/// A chunk as a list of `(formatted instruction, spans)`.
+pub type Listing = Vec<(String, Vec<Span>)>;
+
+fn listing(c: &Chunk) -> Listing {
+    (0..c.len())
+        .map(|i| {
+            let (instr, spans) = c.get(i).expect("in range");
+            (fmt_instr(instr), spans.clone())
+        })
+        .collect()
+}
+
+/// What `Template::new` compiles for one source: for the main chunk (`main`), every block
+/// (`block:<name>`) and every component (`component:<name>`), the listing before and after
+/// `Chunk::optimize` (the latter always computed, whatever the process-wide switch says).
+/// Sorted by id.
+pub struct ChunkListing {
+    pub id: String,
+    pub before: Listing,
+    pub after: Listing,
+}
+
+pub fn chunk_listings(
+    name: &str,
+    source: &str,
+    delimiters: Delimiters,
+) -> Result<Vec<ChunkListing>, Error> {
+    let out = parse(name, source, delimiters)?;
+    let mut res = Vec::new();
+    let mut push = |id: String, mut chunk: Chunk| {
+        let before = listing(&chunk);
+        chunk.verif_force_optimize();
+        let after = listing(&chunk);
+        res.push(ChunkListing { id, before, after });
+    };
+    let mut body = Compiler::new(name);
+    body.compile(out.nodes);
+    push("main".to_string(), body.chunk);
+    for (n, c) in body.blocks {
+        push(format!("block:{n}"), c);
+    }
+    for c in out.component_definitions {
+        let mut compiler = Compiler::new(name);
+        compiler.compile(c.body.clone());
+        push(format!("component:{}", c.name), compiler.chunk);
+    }
+    res.sort_by(|a, b| a.id.cmp(&b.id));
+    Ok(res)
+}
